@@ -272,7 +272,10 @@ def c_obs(o, s):
                   for x in s["cnts"]])
     qc = clist([cpair(cpair(cstr(c["u"]), cstr(c["i"])), cZ(c["qc"])) for c in s["conds"] if c.get("hasqc")])
     sumc = clist([cpair(cstr(x["u"]), cZ(x["s"])) for x in s.get("sumc") or []])
-    return "(mkObs %s %s %s %s %s %s %s)" % (c_res(o, s), clist([cstr(x) for x in s["clients"]]), conds, sums, cnts, qc, sumc)
+    cnts2 = clist([cpair(cstr(x["u"]), cpair(clist([cpair(cstr(e["i"]), cZ(e["c"])) for e in x["entries"]]), cZ(x["total"])))
+                   for x in s.get("cnts2") or []])
+    return "(mkObs %s %s %s %s %s %s %s %s %s)" % (c_res(o, s), clist([cstr(x) for x in s["clients"]]), conds, sums, cnts, qc,
+                                                sumc, cnts2, cZ(s.get("other", 0)))
 
 
 def coq_case(case, obs):
@@ -280,7 +283,7 @@ def coq_case(case, obs):
     cfg = "(mkCfg %s %s)" % (clist([cstr(u) for u in case["ups"]]), cZ(case["cmax"]))
     if steps is None or len(steps) != len(case["ops"]):
         # harness panic: a one-step trace the model cannot agree with
-        return "(CHist %s [(TickTimeout, mkObs ROk [] [] [] [] [] [])])" % cfg
+        return "(CHist %s [(TickTimeout, mkObs ROk [] [] [] [] [] [] [] 0)])" % cfg
     tr = [cpair(c_op(o, s), c_obs(o, s)) for o, s in zip(case["ops"], steps)]
     return "(CHist %s %s)" % (cfg, clist(tr))
 
